@@ -131,9 +131,14 @@ def run(P: Program, R: Report, tier: str) -> None:
             else:
                 R.fail("R17.6", f, f.node, f"{f.name} works on a copy of the incoming column list", "no copy of the incoming list is made: leftovers cannot be tracked")
             continue
+        def empty_dict(v):
+            # {} / dict() / defaultdict(dict) (the entry for a key comes into being on first use)
+            return (isinstance(v, ast.Dict) and not v.keys) or (isinstance(v, ast.Call) and not v.keywords and (
+                (call_name(v) == "dict" and not v.args) or (call_name(v) == "defaultdict" and len(v.args) == 1 and norm(v.args[0]) in ("dict", "lambda: {}", "lambda: dict()"))))
+
         accs = {st.target.id if isinstance(st, ast.AnnAssign) else st.targets[0].id for st in ast.walk(f.node)
-                if (isinstance(st, ast.AnnAssign) and isinstance(st.target, ast.Name) and isinstance(st.value, ast.Dict) and not st.value.keys)
-                or (isinstance(st, ast.Assign) and isinstance(st.targets[0], ast.Name) and isinstance(st.value, ast.Dict) and not st.value.keys)}
+                if (isinstance(st, ast.AnnAssign) and isinstance(st.target, ast.Name) and st.value is not None and empty_dict(st.value))
+                or (isinstance(st, ast.Assign) and isinstance(st.targets[0], ast.Name) and empty_dict(st.value))}
         accs.discard(mapping)
         stores = stores_in(f, mapping, accs)
         removes = [st for st in ast.walk(f.node) if isinstance(st, ast.Expr) and isinstance(st.value, ast.Call) and call_name(st.value) == "remove" and norm(st.value.func.value) == work]
